@@ -246,6 +246,24 @@ fn custom_ids(cfg: &Cfg) {
             sys::close(efd);
         }
     }
+    // the range [0, num_queues] is reserved whether or not the device supplies exit events
+    for nq in [1usize, 3] {
+        let bc = BCfg { num_queues: nq, masks: vec![0xffff], exit_events: false, ..BCfg::default() };
+        let s: Sess<VringMutex<dmn::Mem>> = Sess::new(bc);
+        let h = s.daemon.get_epoll_handlers();
+        for id in 0..=nq as u64 {
+            let efd = sys::eventfd(0, libc::EFD_NONBLOCK);
+            let r = h[0].register_listener(efd, EventSet::IN, id);
+            report::eval(1);
+            report::count("custom_ids.no_exit_event", 1);
+            report::distinct_str(&format!("customid-noexit:{nq}:{id}"));
+            if r.is_ok() {
+                let _ = h[0].unregister_listener(efd, EventSet::IN, id);
+                report::violation("C17:custom-listener:reserved-id-accepted:device-without-exit-event", jo! {"num_queues" => nq, "id" => id, "why" => "ids up to num_queues are reserved (queues and the exit event id)"}, cfg.replay("custom"));
+            }
+            sys::close(efd);
+        }
+    }
     // listeners woken by something else than input readiness: output readiness (an eventfd is always
     // writable) and a hang-up (the read end of a pipe whose writer is closed) - delivered with their id too
     for (nq, masks, worker) in [(1usize, vec![0xffffu64], 0usize), (2, vec![0b01, 0b10], 1)] {
